@@ -2,3 +2,4 @@ import XProofs.Properties.C04
 #print axioms Properties.C04.C04_eval_homomorphism
 #print axioms Properties.C04.C04_inplace_complete
 #print axioms Properties.C04.C04_builtins
+#print axioms Properties.C04.C04_other_exceptions_propagate
